@@ -88,7 +88,10 @@ func (h Handler) ServeHTTP(w http.ResponseWriter, r *http.Request) (int, error) 
 		// We trim those characters because they are served as plain text if appended after .php on Windows
 		fpath = strings.TrimRight(fpath, " .")
 
+		trimmed := fpath != r.URL.Path
+
 		if idx, ok := httpserver.IndexFile(h.FileSys, fpath, rule.IndexFiles); ok {
+			trimmed = false
 			fpath = idx
 			// Index file present.
 			// If request path cannot be split, return error.
@@ -108,8 +111,18 @@ func (h Handler) ServeHTTP(w http.ResponseWriter, r *http.Request) (int, error) 
 		// (fpath is empty for a request target without a path, "GET http://host HTTP/1.1")
 		if !h.exists(fpath) || strings.HasSuffix(fpath, "/") || strings.HasSuffix(strings.ToLower(fpath), strings.ToLower(rule.Ext)) {
 
+			// The trailing dots and blanks were trimmed for the sake of the
+			// script's name. Where they belong to the path info behind it
+			// (a page title ending in a full stop), the responder gets them.
+			envPath := fpath
+			if trimmed {
+				if pos := rule.splitPos(fpath); pos >= 0 && pos+len(rule.SplitPath) < len(fpath) {
+					envPath = r.URL.Path
+				}
+			}
+
 			// Create environment for CGI script
-			env, err := h.buildEnv(r, rule, fpath)
+			env, err := h.buildEnv(r, rule, envPath)
 			if err != nil {
 				return http.StatusInternalServerError, err
 			}
